@@ -17,6 +17,9 @@ for d in dirs:
     name = os.path.basename(d)
     prop = name[:3]
     patch = os.path.join(d, 'patch.diff')
+    # a seed written before a later fix: commit of /repo touches the same lines has its adapted form next to it
+    if os.path.exists(os.path.join(d, 'patch_on_fixed_tree.diff')):
+        patch = os.path.join(d, 'patch_on_fixed_tree.diff')
     if subprocess.run(['git', '-C', '/repo', 'apply', patch]).returncode != 0:
         print(name, 'PATCH-DOES-NOT-APPLY'); continue
     try:
